@@ -85,6 +85,8 @@ struct Actor {
     panicked: Option<String>,
     points: u32,
     last: &'static str,
+    /// Scheduler progress counter when the actor last reported a contended lock.
+    blocked_at: u64,
 }
 
 #[derive(Default)]
@@ -110,6 +112,12 @@ struct State {
     winding_down: bool,
     machinery: Option<String>,
     free_boundaries: bool,
+    /// Incremented whenever an actor runs a step (used to keep an actor that
+    /// found a lock contended from spinning: it is re-enabled only after some
+    /// other actor has moved, or when the engine saw the lock being released).
+    progress: u64,
+    /// Stable small ids for objects identified by address (plain std mutexes).
+    addr_ids: BTreeMap<u64, u64>,
     manual_blocking: bool,
     jobs: std::collections::VecDeque<BlockingFn>,
 }
@@ -131,6 +139,20 @@ fn try_with_st<R>(f: impl FnOnce(&mut State) -> R) -> Option<R> {
 }
 
 struct EngineHooks;
+
+/// Objects identified by their address (plain std mutexes behind
+/// `before_std_lock`) get a small per-execution id in order of first use, so
+/// that traces and states do not depend on where the allocator put them.
+fn norm_id(obj: u64) -> u64 {
+    if obj < (1 << 32) {
+        return obj;
+    }
+    try_with_st(|st| {
+        let n = st.addr_ids.len() as u64;
+        *st.addr_ids.entry(obj).or_insert((1 << 31) + n)
+    })
+    .unwrap_or(obj)
+}
 
 fn suspend(y: Yield) -> Resume {
     let ptr = with_st(|st| {
@@ -180,6 +202,7 @@ impl Hooks for EngineHooks {
     }
 
     fn mutex_blocked(&self, obj: u64) {
+        let obj = norm_id(obj);
         if can_yield() {
             let _ = suspend(Yield::Blocked(obj));
         } else {
@@ -192,6 +215,7 @@ impl Hooks for EngineHooks {
     }
 
     fn mutex_acquired(&self, obj: u64) {
+        let obj = norm_id(obj);
         let _ = try_with_st(|st| {
             let cur = st.current;
             st.held.insert(obj, cur);
@@ -199,6 +223,7 @@ impl Hooks for EngineHooks {
     }
 
     fn mutex_released(&self, obj: u64) {
+        let obj = norm_id(obj);
         let _ = try_with_st(|st| {
             st.held.remove(&obj);
         });
@@ -244,6 +269,8 @@ pub fn begin() {
             winding_down: false,
             machinery: None,
             free_boundaries: true,
+            progress: 0,
+            addr_ids: BTreeMap::new(),
             manual_blocking: false,
             jobs: std::collections::VecDeque::new(),
         })
@@ -261,7 +288,15 @@ pub fn end() {
                 if co.done() {
                     STACKS.with(|s| s.borrow_mut().push(co.into_stack()));
                 } else {
+                    // a stuck actor (deadlock / horizon verdict): its stack cannot
+                    // be reclaimed safely; give up on the scenario before leaked
+                    // stacks exhaust the address space
                     std::mem::forget(co);
+                    static LEAKED: std::sync::atomic::AtomicUsize = std::sync::atomic::AtomicUsize::new(0);
+                    let n = LEAKED.fetch_add(1, Ordering::Relaxed) + 1;
+                    if n % 4000 == 0 {
+                        explorer::flag_stop("stopped: too many executions ended with stuck actors (their coroutine stacks cannot be reclaimed)");
+                    }
                 }
             }
         }
@@ -297,6 +332,7 @@ fn spawn_kind(name: &str, kind: ActorKind, body: impl FnOnce() + 'static) -> usi
             panicked: None,
             points: 0,
             last: "start",
+            blocked_at: 0,
         });
     });
     idx
@@ -668,6 +704,8 @@ fn resume_actor(i: usize, msg: Resume) {
     let r = co.resume(msg);
     with_st(|st| {
         st.current = None;
+        st.progress += 1;
+        let progress_now = st.progress;
         let a = &mut st.actors[i];
         match r {
             CoroutineResult::Yield(y) => {
@@ -685,6 +723,7 @@ fn resume_actor(i: usize, msg: Resume) {
                     Yield::Blocked(m) => {
                         a.state = AState::Blocked(m);
                         a.last = "blocked";
+                        a.blocked_at = progress_now;
                     }
                     Yield::Parked { cancellable } => {
                         a.state = AState::Parked { cancellable };
@@ -733,10 +772,12 @@ pub fn run(cfg: &RunCfg, mut on_step: impl FnMut() -> bool) -> Verdict {
                 match a.state {
                     AState::Ready | AState::AtBoundary => enabled.push(i),
                     AState::Blocked(m) => {
-                        if !st.held.contains_key(&m) {
+                        // retry when the engine saw the lock released, and (for
+                        // locks it cannot see) only after somebody else has moved
+                        if !st.held.contains_key(&m) && st.progress > a.blocked_at {
                             enabled.push(i)
                         } else {
-                            blocked_desc = format!("{} waits for lock {}", a.name, m);
+                            blocked_desc = format!("{} waits for a lock", a.name);
                         }
                     }
                     AState::Parked { cancellable } => {
